@@ -24,7 +24,8 @@ def match(known, prop, rule, tmin, res, run):
         if any(probes.get(p, 0) == 0 for p in kf.get("cause_probes", [])):
             continue
         anyp = kf.get("cause_probes_any", [])
-        if anyp and all(probes.get(p, 0) == 0 for p in anyp):
+        only = kf.get("cause_probes_rules")
+        if anyp and (only is None or rule in only) and all(probes.get(p, 0) == 0 for p in anyp):
             continue
         cfg_ok = True
         for k, v in kf.get("config", {}).items():
